@@ -155,6 +155,8 @@ janus_case = st.fixed_dictionaries({
     "gravity": st.sampled_from(["basic", "basic", "compensated", "compensated", "none"]),
     "n_active": st.one_of(st.none(), st.integers(1, 5)),     # None: all active; else min(n_active, N-1) active
     "testparticle_type": st.sampled_from([0, 1]),
+    "reconf": reconf,
+    "drive": drive,
 })
 # focus on the force-routine lattice: several active bodies plus test particles, fine grid, longer steps
 janus_tp_case = st.fixed_dictionaries({
